@@ -6,6 +6,7 @@ import (
 	"fmt"
 	"os"
 	"runtime"
+	"sort"
 	"strings"
 	"testing"
 	"time"
@@ -66,6 +67,12 @@ func TestWorker(t *testing.T) {
 		cancel := startWatchdog(sc, emit)
 		res := RunScenario(t, sc)
 		cancel()
+		if debugTrace {
+			sort.Strings(debugLog)
+			for _, l := range debugLog {
+				fmt.Fprintln(os.Stderr, "TRACE", l)
+			}
+		}
 		if len(res.Violations) > 0 || res.Harness != "" || keep {
 			res.Scenario = sc
 		}
